@@ -108,6 +108,37 @@ def run(tier, seed):
     ev.d["assumptions"] = ["rules are specified on encodings; vocabulary readings that follow mir_eval/MIREX (majmin admits C:7 "
                            "through its triad; an X estimate counts as every pitch class for mirex; root(N,X)=1) are named in "
                            "DESIGN.md"]
+    # code -> spec: the lattice judged by TLC (Trace_C11) on values recorded for the real vocabulary of the repository's
+    # chord fixtures - label pairs as they face each other after the annotations are merged
+    from .. import trace, realdata
+    pairs = {}
+    for nm, (ri, rl, ei, el) in realdata.pairs(me, "chord", None if tier == "thorough" else 4):
+        try:
+            ei2, el2 = me.util.adjust_intervals(ei, el, ri.min(), ri.max(), me.chord.NO_CHORD, me.chord.NO_CHORD)
+            _, rl3, el3 = me.util.merge_labeled_intervals(ri, rl, ei2, el2)
+        except Exception:  # noqa
+            continue
+        for a_, b_ in zip(rl3, el3):
+            pairs.setdefault(a_, set()).add(b_)
+    events = []
+    fns = [getattr(me.chord, r_) for r_ in RULES]
+    for a_, bs in sorted(pairs.items()):
+        bs = sorted(bs)
+        try:
+            cols = [fn([a_] * (len(bs) + 1), [a_] + bs) for fn in fns]
+        except Exception as ex:  # noqa
+            rep.violation("chord.compare", "raised-" + type(ex).__name__, {"ref": a_, "est": bs[:5], "message": str(ex)[:200]})
+            continue
+        vals = [[int(col[k]) if float(col[k]).is_integer() else 7 for col in cols] for k in range(len(bs) + 1)]
+        events.append({"tid": len(events) + 1, "ref": a_, "ests": bs, "self": vals[0], "vals": vals[1:]})
+    if events:
+        rejects, st = trace.validate_par("Trace_C11", [{k: v for k, v in e.items() if k in ("tid", "self", "vals")} for e in events])
+        ev.tlc("Trace_C11", st, "lattice verdicts on values recorded for the fixtures' label pairs")
+        for rj in rejects:
+            e = events[rj["tid"] - 1]
+            rep.violation("chord.compare", "fixture-pairs/" + rj["clause"], {"ref": e["ref"], "ests": e["ests"], "self": e["self"], "vals": e["vals"]})
+        ev.cov["fixture_reference_labels_judged"] = len(events)
+        ev.cov["fixture_label_pairs_judged"] = sum(len(e["ests"]) for e in events)
     code = rep.finish()
     ev.write(violations=len(rep.violations))
     return code
